@@ -100,6 +100,24 @@ def own (kv : KV) : String :=
         | .panicked => ("panicked", [])
         | _ => ("ub", [])
       OwnE.fmt res (OwnE.canonEvs (r.1.filter visible)) out
+    | "zip" =>
+      -- two owned arrays: `b.inverted_zip(a, f)` with `a` the receiver of `zip`
+      if kv.getD "form" "o" ≠ "o" || kv.getD "form2" "o" ≠ "o" then "n/a" else
+      let plB := kv.getD "kind2" "tr" = "pl"
+      let ys := (List.range n).map (· + 101)
+      let f : Nat → Option Nat := fun i => if callBad = some i then none else some (1000 + i)
+      let cc : Ctx := { n := n, bad := none, fpan := fun _ => false, cl := f, ext := { ndSelf := !plB, ndOther := !plA } }
+      let r := runFn3 cc Gen.Body.consumerDrop.body Gen.Body.intrusiveDrop.body Gen.Body.gaIzip []
+        ⟨⟨ys, 0, 0, 0, []⟩, ⟨[], 0, 0, 0, []⟩, false, 0, false, 0, false, { other := ⟨xs, 0, 0, 0, []⟩ }⟩
+      let visible2 (e : Ev) : Bool :=
+        match e with
+        | .drop x => !((plA && decide (1 ≤ x) && decide (x ≤ 100)) || (plB && decide (101 ≤ x) && decide (x ≤ 999)))
+        | _ => true
+      let (res, out) : String × List Nat := match r.2.1 with
+        | .ret (.arr l) => ("ok", l)
+        | .panicked => ("panicked", [])
+        | _ => ("ub", [])
+      OwnE.fmt res (OwnE.canonEvs (r.1.filter visible2)) out
     | "generate" =>
       let f : Nat → Option Nat := fun i => if callBad = some i then none else some (1000 + i)
       let cc : Ctx := { n := n, bad := none, fpan := fun _ => false, cl := f }
